@@ -104,6 +104,19 @@ def gen_case(R, index, tier):
         if not specs or specs[0]["k"] in ("M", "Z"):
             sp, _ = GG.segment(R, None)
             specs = [sp] + [s for s in specs if False]
+    # an arc with a zero radius is the straight line between its end points (SVG F.6.2): it must be reversed like any other segment
+    for sp in specs:
+        if sp["k"] == "A" and "arc" in sp and R.random() < 0.12:
+            a_ = list(sp["arc"])
+            w = R.random()
+            if w < 0.4:
+                a_[2] = 0.0
+            elif w < 0.8:
+                a_[3] = 0.0
+            else:
+                a_[2] = a_[3] = 0.0
+            sp["arc"] = a_
+            sp["zero_radius"] = True
     return {"stratum": st, "path": specs, "which": R.randint(0, 4), "M": list(GT.affine(R)[1])}
 
 
